@@ -30,6 +30,27 @@ func (a *Analysis) classifyErr(v ssa.Value) errClass {
 			return errClass{Kind: "sentinel", G: g, Desc: g.Name()}
 		}
 	case *ssa.MakeInterface:
+		// &T{…} of a module type whose only error-related method is Error: a fresh error value
+		// (pointer identity), matching nothing but itself
+		if al, ok := x.X.(*ssa.Alloc); ok && al.Heap {
+			if pt, ok := al.Type().Underlying().(*types.Pointer); ok {
+				if n, ok := pt.Elem().(*types.Named); ok && n.Obj().Pkg() != nil && a.P.Root != nil && n.Obj().Pkg() == a.P.Root.Pkg {
+					ms := a.P.SSA.MethodSets.MethodSet(al.Type())
+					hasError, other := false, false
+					for i := 0; i < ms.Len(); i++ {
+						switch ms.At(i).Obj().Name() {
+						case "Error":
+							hasError = true
+						case "Is", "As", "Unwrap":
+							other = true
+						}
+					}
+					if hasError && !other {
+						return errClass{Kind: "fresh", Desc: "&" + n.Obj().Name() + "{…}"}
+					}
+				}
+			}
+		}
 		return a.classifyErr(x.X)
 	case *ssa.ChangeInterface:
 		return a.classifyErr(x.X)
@@ -343,6 +364,51 @@ func (a *Analysis) ruleGates() {
 					if len(subj) > 0 {
 						gateFn, defBlock = g, g.Blocks[0]
 						a.R.OK("G3", "CheckMnemonic/gate-function", a.P.Pos(g.Pos()), "", "the tokens are passed to %s, whose results CheckMnemonic returns unchanged: the count gate is analysed there (len(%s))", fnKey(g), param.Name())
+					}
+				}
+			}
+			if len(subj) == 0 {
+				// the function that splits only hands the tokens back (`return strings.Split(…)`):
+				// its callers hold them as the call's result; the gate is where len of that is taken
+				ri := -1
+				rets := returnsOf(tokFn)
+				if len(rets) == 1 {
+					for i := range rets[0].Results {
+						if returnedValue(rets[0], i) == ssa.Value(tok) {
+							ri = i
+						}
+					}
+				}
+				if ri >= 0 {
+					nres := tokFn.Signature.Results().Len()
+					for f := range a.reachableFrom(a.CM) {
+						for _, c := range callsIn(f) {
+							cc, ok := c.(*ssa.Call)
+							if !ok || cc.Call.StaticCallee() != tokFn {
+								continue
+							}
+							var tv ssa.Value = cc
+							if nres > 1 {
+								tv = nil
+								for _, ref := range *cc.Referrers() {
+									if ex, ok := ref.(*ssa.Extract); ok && ex.Index == ri {
+										tv = ex
+									}
+								}
+							}
+							if tv == nil {
+								continue
+							}
+							for _, lc := range callsIn(f) {
+								if calleeName(lc) == "len" && lc.Common().Args[0] == tv {
+									subj[lc.Value()] = true
+									gateFn, defBlock = f, cc.Block()
+								}
+							}
+						}
+					}
+					if len(subj) > 0 {
+						a.R.OK("G3", "CheckMnemonic/gate-function", a.P.Pos(gateFn.Pos()), "", "%s only returns the tokens: the count gate is analysed in %s, on len of that result", fnKey(tokFn), fnKey(gateFn))
 					}
 				}
 			}
